@@ -46,8 +46,8 @@ A2 = ["CS(=O)CC", "CN=CC", "CC(=NO)C", "C(F)(Cl)=C=C(F)Cl", "CC=NN", "C[S+]([O-]
 
 def gen_cases(ctx):
     rng = ctx.rng
-    big = ["C/C=C/" + "C" * 86, "C/C=C\\" + "C" * 86, "C" * 40 + "/C=C\\" + "C" * 44, "C[C@H](F)" + "C" * 84 + "/C=C\\C"]
-    for j in range(ctx.n(48, 400)):
+    big = ["C/C=C/" + "C" * 110, "C/C=C\\" + "C" * 110, "C" * 50 + "/C=C\\" + "C" * 60, "C[C@H](F)" + "C" * 100 + "/C=C\\C", "F/C=C/" + "C" * 50 + "/C=C\\" + "C" * 50 + "/C=C/Cl"]
+    for j in range(ctx.n(64, 400)):
         yield {"kind": "mol", "smiles": big[(j + ctx.shard) % len(big)], "eseed": 2 * rng.randrange(1, 50000) + 1, "relax": False, "big": True}
     n = ctx.n(3200, 40000)
     for i in range(n):
@@ -126,7 +126,7 @@ def _mol(ctx, case):
         # the annotation route then has nothing to agree with
         ctx.count("skipped:not-one-stereoisomer")
         return
-    if AllChem.EmbedMolecule(m, randomSeed=case["eseed"]) != 0:
+    if AllChem.EmbedMolecule(m, randomSeed=case["eseed"], useRandomCoords=m.GetNumAtoms() > 150) != 0:
         ctx.count("skipped:embedding-failed")
         return
     if case["relax"]:
